@@ -18,6 +18,8 @@ def run_threaded(sc):
     import isotp
     threadrun.install_clock()
     sys.setswitchinterval(1e-5)
+    # (a scenario reloaded from a JSON replay / corpus file has string keys and lists)
+    sc['senders'] = {int(k): [[(int(r), bytes(p)) for (r, p) in items] for items in v] for k, v in sc['senders'].items()}
     rng = random.Random(sc['seed'])
     rec = threadrun.Recorder()
     kind = sc['transport']
